@@ -45,7 +45,7 @@ def gen_hostile(rng, framer, units, single, other_pdus=None):
         layout = dict(units).get(uid, units[0][1])
         tid = rng.randrange(65536)
         kind = rng.choice(['random', 'valid-write', 'valid-other', 'trunc-pdu', 'long-pdu', 'bad-count', 'zero-pdu',
-                           'len-field', 'bitflip', 'unknown-sub', 'random', 'valid-write'])
+                           'len-field', 'bitflip', 'unknown-sub', 'random', 'valid-write', 'inconsistent'])
         if inert_only:
             kind = 'inert'
         good = execlib.gen_req(rng, layout, [], 0.0)
@@ -65,6 +65,24 @@ def gen_hostile(rng, framer, units, single, other_pdus=None):
         elif kind == 'bad-count':
             bad = execlib.gen_req(rng, layout, [], 1.0)
             c = serverlib.frame_pdu(framer, list(execlib.enc_req(bad)), uid, tid)
+        elif kind == 'inconsistent':
+            # a write (FC 15 / 16 / 23) that would be valid, with its byte count off by one or two and exactly that many data
+            # bytes behind it: well-framed, decodable on some paths, and to be REJECTED (exception 03) without any change
+            w = None
+            for _ in range(60):
+                cand = execlib.gen_req(rng, layout, [], 0.0)
+                if cand['t'] in ('writeCoils', 'writeRegisters', 'readWrite') and 'raw' in cand and len(cand['raw']) >= 2:
+                    w = dict(cand)
+                    break
+            if w is None:
+                kind, c = 'zero-pdu', serverlib.frame_pdu(framer, [], uid, tid)
+            else:
+                raw = list(w['raw'])
+                how = rng.choice(['plus1', 'minus1', 'plus2'])
+                raw = raw + [0xAB] if how == 'plus1' else raw[:-1] if how == 'minus1' else raw + [0xAB, 0xCD]
+                w['raw'] = raw
+                w['write_byte_count' if w['t'] == 'readWrite' else 'byte_count'] = len(raw)
+                c = serverlib.frame_pdu(framer, list(execlib.enc_req(w)), uid, tid)
         elif kind == 'zero-pdu':
             c = serverlib.frame_pdu(framer, [], uid, tid)
         elif kind == 'len-field':
@@ -226,6 +244,18 @@ def check(ctx, rep, cases):
         if grown is not None:
             rep.violation('the extent of a datastore table changed (cells were created or removed by a request)', case, index=grown,
                           chunk=c['schedule'][grown][1][:80] if isinstance(c['schedule'][grown][1], list) else c['schedule'][grown][1])
+            continue
+        # a read that holds nothing but a write whose byte count contradicts its quantity (kind 'inconsistent') prescribes no
+        # change, whatever the server answered
+        kinds = c.get('kinds') or []
+        prevd, badk = before, None
+        for i, now in enumerate(per_step):
+            if i < len(kinds) and kinds[i] == 'inconsistent' and now != prevd:
+                badk = i
+                break
+            prevd = now
+        if badk is not None:
+            rep.violation('a write request whose byte count contradicts its quantity changed the datastore', case, index=badk, written=outs[badk], chunk=c['schedule'][badk][1][:80])
             continue
         # a read that is answered with exception responses only, or not at all, prescribes no change (broadcast off:
         # every executed request is answered)
